@@ -212,3 +212,55 @@ def run_shard(args):
             stats['kinds'][k] = stats['kinds'].get(k, 0) + 1
     problems = [p for f in fams for p in f['problems']]
     return stats, problems, model_bad, (fams[0]['errors'][:2] if fams else [])
+
+
+def run_option_family(seed):
+    """C05 at the dataset level: one base dataset under dataset-wide layers that differ in ONE option (keep vs drop of the same ids,
+    another id list, another grouping key, another join mode, with / without CheckIds): the persistent digest of `ids` (and of a
+    field for a fixed id) may be equal for two pipelines only if the values are equal."""
+    rng = random.Random(seed)
+    from .suite_pickle import digest_of
+    paths.use_repo()
+    world = SymWorld()
+    b = Builder(world)
+    n = rng.randint(4, 7)
+    ids = [f'i{k}' for k in range(n)]
+    rng.shuffle(ids)
+    tab = lambda f, vals: {'args': ['i'], 'f': f, 'table': [[[i], vals[j % len(vals)]] for j, i in enumerate(sorted(ids) + ['zz'])]}
+    base = {'k': 'source', 'cls': 'OF', 'ids': ids, 'params': {}, 'cargs': {}, 'defaults': {},
+            'fields': {'x': {'args': ['i'], 'f': 'OF.x'}, 'kk': tab('OF.kk', ['g', 'h']), 'k2': tab('OF.k2', ['g', 'h', 'h'])}}
+    other = {'k': 'source', 'cls': 'OR', 'ids': [f'j{k}' for k in range(3)], 'params': {}, 'cargs': {}, 'defaults': {},
+             'fields': {'kk': {'args': ['i'], 'f': 'OR.kk', 'table': [[['j0'], 'g'], [['j1'], 'q'], [['j2'], 'g2']]}, 'z': {'args': ['i'], 'f': 'OR.z'}}}
+    a = sorted(rng.sample(ids, rng.randint(1, n - 1)))
+    a2 = sorted(set(ids) - set(a)) if rng.random() < 0.5 else sorted(rng.sample(ids, rng.randint(1, n - 1)))
+    left = dict(base, fields={'x': base['fields']['x'], 'kk': {'args': ['i'], 'f': 'OF.kk1', 'table': [[[i], 'u' + i] for i in ids]}})
+    left['cls'] = 'OL'
+    variants = {
+        'keep(A)': [base, {'k': 'keep', 'ids': a}], 'drop(A)': [base, {'k': 'drop', 'ids': a}],
+        'keep(B)': [base, {'k': 'keep', 'ids': a2}], 'drop(B)': [base, {'k': 'drop', 'ids': a2}],
+        'keep(A)+check': [base, {'k': 'keep', 'ids': a}, {'k': 'check_ids'}],
+        'groupby(kk)': [base, {'k': 'groupby', 'by': 'kk'}], 'groupby(k2)': [base, {'k': 'groupby', 'by': 'k2'}],
+        'plain': [base],
+    }
+    for how in ('inner', 'left', 'right', 'outer'):
+        variants[f'join({how})'] = [{'k': 'join', 'left': dict(left, fields={'x': left['fields']['x'], 'kk': {'args': ['i'], 'f': 'OF.kkj', 'table': [[[i], (['g', 'q', 'w'] + ['u' + x for x in ids])[j]] for j, i in enumerate(ids)]}}),
+                                     'right': other, 'on': ['kk'], 'how': how}]
+    recs, problems = [], []
+    for what, layers in variants.items():
+        try:
+            p = b.layer({'k': 'chain', 'flavour': 'chain', 'layers': layers})
+            fn = p._compile('ids')
+            recs.append((what, 'ids', digest_of(fn, []), canon(val_to_json(fn(), world))))
+        except Exception as e:
+            recs.append((what, 'ids', 'ERR:' + what, 'ERR ' + exc_name(e)))
+    groups = {}
+    for what, f, dg, val in recs:
+        groups.setdefault(dg, []).append((what, val))
+    for dg, rs in groups.items():
+        for what, val in rs[1:]:
+            if val != rs[0][1]:
+                problems.append({'a': rs[0][0], 'b': what, 'base': base, 'A': a, 'B': a2,
+                                 'msg': f'equal persistent digests of `ids` for {rs[0][0]} and {what} over one dataset, but different values: '
+                                        f'{rs[0][1][:100]} vs {val[:100]}'})
+                break
+    return {'variants': len(recs), 'pairs': sum(len(r) - 1 for r in groups.values())}, problems
